@@ -206,7 +206,7 @@ class Check(E3Check):
         from props import C17s
         sub = core.Report(self.prop, tier, seed)
         sub.coverage["rule"] = ""
-        rc = C17s.CHECK.campaign(sub, tier, seed, 20.0 if tier == "quick" else 300.0, with_corpus=False)
+        rc = C17s.CHECK.campaign(sub, tier, seed, 20.0 if tier == "quick" else 300.0, with_corpus=True)
         for v in sub.violations:
             rep.add_violation(v)
         rep.notes += sub.notes
